@@ -71,7 +71,11 @@ impl Emitter {
         o.push_str(&self.probes.iter().map(|(id, f, w)| format!("{{\"id\": {}, \"fn\": \"{}\", \"where\": \"{}\"}}", id, esc(f), esc(w))).collect::<Vec<_>>().join(", "));
         o.push_str("],\n \"rules\": {");
         o.push_str(&cx.rules.iter().map(|(k, v)| format!("\"{}\": {}", esc(k), v)).collect::<Vec<_>>().join(", "));
-        o.push_str("}\n}\n");
+        o.push_str("},\n \"uncontracted_loops\": [");
+        o.push_str(&cx.uncontracted.iter().map(|f| format!("\"{}\"", esc(f))).collect::<Vec<_>>().join(", "));
+        o.push_str("],\n \"dropped\": [");
+        o.push_str(&cx.dropped.iter().map(|f| format!("\"{}\"", esc(f))).collect::<Vec<_>>().join(", "));
+        o.push_str("]\n}\n");
         o
     }
 }
